@@ -18,9 +18,14 @@ class StubError(Exception):
 
 
 class EvaluatedStub:
-    def __init__(self, text, own_names):
-        """own_names: the target module's own classes (name -> object), which a stub may use unqualified"""
+    def __init__(self, text, own_names, tolerant=False):
+        """own_names: the target module's own classes (name -> object), which a stub may use unqualified.
+        tolerant: a generated class whose body cannot be evaluated is recorded in `broken` instead of aborting, so that
+        the annotations that do not depend on it can still be judged"""
         self.text = text
+        self.tolerant = tolerant
+        self.broken = {}
+        self.class_nodes = {}
         try:
             self.tree = ast.parse(text)
         except SyntaxError as e:
@@ -46,10 +51,14 @@ class EvaluatedStub:
                 if is_td and not path:
                     if n.name in self.classes:
                         self.duplicate_classes.append(n.name)
+                    self.class_nodes.setdefault(n.name, []).append(n)
                     try:
                         exec(compile(ast.Module([n], []), "<stub-class>", "exec"), self.ns)
                     except Exception as e:
-                        raise StubError("class-body", "class %s: %r" % (n.name, e))
+                        if not self.tolerant:
+                            raise StubError("class-body", "class %s: %r" % (n.name, e))
+                        self.broken[n.name] = repr(e)
+                        continue
                     self.classes[n.name] = self.ns[n.name]
                     base = next((ast.unparse(b) for b in n.bases if ast.unparse(b) in self.class_info), None)
                     total = not any(kw.arg == "total" and ast.unparse(kw.value) == "False" for kw in n.keywords)
@@ -75,6 +84,8 @@ class EvaluatedStub:
             raise StubError("annotation", "forward references do not terminate")
         if isinstance(t, str) or isinstance(t, typing.ForwardRef):
             name = t if isinstance(t, str) else t.__forward_arg__
+            if name in self.broken:
+                raise StubError("class-body", "class %s: %s" % (name, self.broken[name]))
             if name not in self.ns:
                 raise StubError("forward-ref", "name %r is not provided by the stub" % name)
             return self.resolve(self.ns[name], tbl, depth + 1)
@@ -101,7 +112,13 @@ class EvaluatedStub:
                     tuple((Q(k), self.resolve(v, tbl, depth + 1)) for k, v in opt.items()))
         origin = typing.get_origin(t)
         if origin is not None and origin is not typing.Union and t is not typing.Callable:
-            args = t.__args__
+            args = getattr(t, "__args__", None)
+            if args is None:
+                # a bare generic (`Tuple`, `List`, `Dict`): every parameter is Any
+                bare = {list: ("list", "any"), set: ("set", "any"), dict: ("dict", "any", "any"), tuple: ("tupleOf", "any")}.get(origin)
+                if bare is None:
+                    raise StubError("annotation", "bare generic %r" % (t,))
+                return bare
             kids = []
             for a in args:
                 if a is Ellipsis:
